@@ -106,14 +106,14 @@ Definition s2s_load_map (st : str2str) (visit : list (bytes * bytes)) : str2str 
 
 Definition s2s_get (st : str2str) (k : bytes) : res (option bytes) :=
   match s2s_map st with
-  | None => Panic 6                                   (* nil pointer dereference *)
+  | None => Ok None                                   (* if sm.strMap == nil { return "", false } *)
   | Some m =>
     do r <- get hash m k;
     match r with
     | None => Ok None
     | Some idx =>
       match s2s_store st with
-      | None => Panic 6
+      | None => Panic 6                               (* nil *StrStore dereferenced by Get *)
       | Some s => do v <- store_get s idx; Ok (Some v)
       end
     end
@@ -121,7 +121,7 @@ Definition s2s_get (st : str2str) (k : bytes) : res (option bytes) :=
 
 Definition s2s_len (st : str2str) : res N :=
   match s2s_map st with
-  | None => Panic 6
+  | None => Ok 0                                      (* if sm.strMap == nil { return 0 } *)
   | Some m => Ok (map_len m)
   end.
 
